@@ -1870,7 +1870,8 @@ class Memoer(Tymee):
         zbz = (self.size - zoz)  # max zeroth gram body size >=1
         nbz = (self.size - noz)  # max non-zeroth gram body size >=1
         ml = len(memo)
-        gc = math.ceil((ml+nbz-zbz)/nbz)
+        # zeroth gram holds up to zbz body bytes, every later gram up to nbz
+        gc = 1 if ml <= zbz else 1 + math.ceil((ml-zbz)/nbz)
         mms = min(self.MaxMemoSize, (nbz*(self.MaxGramCount-1) + zbz))  # max memo payload
         if ml > mms:
             raise hioing.MemoerError(f"Memo length={ml} exceeds max={mms}")
